@@ -2830,8 +2830,15 @@ class TLSConnection(TLSRecordLayer):
 
         self._cert_requests[context] = certificate_request
 
-        for result in self._sendMsg(certificate_request):
-            yield result
+        try:
+            for result in self._sendMsg(certificate_request):
+                yield result
+        except GeneratorExit:
+            raise
+        except Exception:
+            # same as for a failed write of application data
+            self._shutdown(self.ignoreAbruptClose)
+            raise
 
     @staticmethod
     def _derive_key_iv(nonce, user_key, settings):
